@@ -203,8 +203,8 @@ def pairing(ctx):
     ev = SymEval(module_aliases(ctx.mod(DISP)))
     rec = []
 
-    def dv(p0, p1, box, pbc):
-        rec.append((p0, p1, box, pbc))
+    def dv(pos_0=None, pos_1=None, box=None, pbc=None):
+        rec.append((pos_0, pos_1, box, pbc))
         return sp.Symbol('D')
     # mixed periodicity, different in the two systems: the flags reach the kernel as they are (no shortcut for "not fully periodic")
     PB = {0: (True, False, True), 1: (False, True, True)}
@@ -267,4 +267,4 @@ def run(ctx):
     ctx.run_rules([lambda c: scale_free_cleanup(c, 'CELL-SCALE') and None, lambda c: lints.c_double(c, 'C-DOUBLE', DV, floor=7), lambda c: lints.c_double(c, 'C-DOUBLE', DM, floor=6),
                    lambda c: minfold(c, DV, 'dvect_c', True), lambda c: minfold(c, DM, 'dmag2_c', False),
                    lambda c: wrapper(c, DV, 'dvect', 'dvect_c', True), lambda c: wrapper(c, DM, 'dmag', 'dmag2_c', False), pairing,
-                   lambda c: readonly.rule(c, DV, floor=2) and None, lambda c: readonly.rule(c, DM, floor=2) and None])
+                   lambda c: readonly.rule(c, DV, floor=1) and None, lambda c: readonly.rule(c, DM, floor=1) and None])
